@@ -51,6 +51,9 @@ ASSUMPTIONS = [
     "setters are exercised with in-range values only (the property demands refusal from the constructors, the tree's setters do not validate)",
     "a result is re-observed after the next one or two cases of the fixed enumeration order, not after every later case",
     "a mutation through header.packet_id / header.packet_seq_control is expected to show in pack() only as far as the header's own getter reports it",
+    "'decode(encode(h)) = h' is read with '=' being the classes' own ==, which therefore has to tell apart headers / words that differ in any one field (checked for adjacent cases and for one-bit neighbours in the edge product)",
+    "from_composite_fields takes the values of the two words (as on this tree): assigning to the resulting header must not change the words passed in",
+    "SpacePacket.pack() inside a history is compared with the encoding of what the packet's own sp_header reports",
 ]
 
 
